@@ -38,7 +38,7 @@ extern "C" __attribute__((used, visibility("default"))) const char * __tsan_defa
 
 namespace sim {
 
-void suite_process_init(); // seams that need per-process initialisation (defined in seams)
+void suite_process_init(bool warm); // env.cc: per-process environment; warm = exercise the library's lazily initialised statics once
 
 static double now_s()
 {
@@ -48,6 +48,7 @@ static double now_s()
 
 static std::string g_san_dir = build_dir() + "/san";
 static std::string g_self;
+static bool g_fresh_runs = false; // --fresh 1: every run executes in a process forked from a worker that never ran SUT code
 std::string self_exe() { return g_self; }
 std::string san_dir() { return g_san_dir; }
 
@@ -173,7 +174,7 @@ static Outcome run_fresh(const Plan & plan, const RunCtx & ctx, double timeout_s
       int efd = open(ep.c_str(), O_WRONLY | O_CREAT | O_TRUNC, 0644);
       if (efd >= 0) { dup2(efd, 2); close(efd); }
     }
-    suite_process_init();
+    suite_process_init(!g_fresh_runs && plan.hint("io_points", 0) == 0);
     Outcome o = execute(plan, ctx);
     std::string l = o.line() + "\n";
     ssize_t w = ::write(pfd[1], l.data(), l.size());
@@ -250,12 +251,11 @@ struct Worker
   std::vector<std::pair<std::string, u64>> hist; // runs completed by this process, in order
 };
 
-static bool g_fresh_runs = false; // --fresh 1: every run executes in a process forked from a worker that never ran SUT code
 
 static void worker_main(int in_fd, int out_fd, u64 seed, const RunCtx & ctx)
 {
   quiet_stdio();
-  if (!g_fresh_runs) suite_process_init();
+  if (!g_fresh_runs) suite_process_init(true);
   FILE * in = fdopen(in_fd, "r");
   char line[512];
   while (fgets(line, sizeof line, in)) {
